@@ -117,6 +117,10 @@ func genCase(rng *rand.Rand) *caseDesc {
 		}
 		c.Rules = append(c.Rules, d)
 	}
+	if len(c.Rules) > 1 && rng.Intn(3) == 0 {
+		// siblings with equal statistic parameters (interval, relation): each still meters on a window of its own
+		c.Rules[1].Interval, c.Rules[1].Assoc, c.Rules[1].Leftover = c.Rules[0].Interval, c.Rules[0].Assoc, c.Rules[0].Leftover
+	}
 	if rng.Intn(3) == 0 {
 		c.RefHas = &ruleDesc{ID: "q0", Threshold: vk.PickF(rng, 1, 2, 5), Interval: ivs[rng.Intn(len(ivs))]}
 	}
